@@ -27,7 +27,7 @@ VARIANTS = {
               "cflags": ["-O2", "-O3", "-DMIR_MAX_INSNS_FOR_INLINE=0",
                          "-DMIR_MAX_INSNS_FOR_CALL_INLINE=0"] + COMMON, "ldflags": []},
 }
-LIB_TUS = {"mir": "mir.c", "mir-gen": "mir-gen.c", "c2mir": "c2mir/c2mir.c"}
+LIB_TUS = {"mir": "mir.c", "mir-gen": "mir-gen.c", "c2mir": "c2mir/c2mir.c", "mir2c": "mir2c/mir2c.c"}
 
 
 def _run(cmd, **kw):
